@@ -1005,16 +1005,27 @@ def _run(rep, tier, seed, B, rng, lb, pool, d):
             one.setdefault(c["mix"][0][0], c)
     if set(one) != set(OPS):
         rep.machinery(f"the single-operation simulation did not reach every operation: missing {sorted(set(OPS) - set(one))}")
+    n_conform = 0
     for c, o in zip(one.values(), pool.map(replay_case, list(one.values()))):
         rep.count(1)
         mproj, _ = model_project(c)
-        if not (o["clean"] and o["n_mismatch"] == 0 and o["skipped"] == 0 and o["unconsumed"] == 0 and o["elided"] == 0
-                and o["extra"] == 0):
-            rep.machinery(f"operation {c['mix'][0][0]} run alone does not perform the visible events of the model "
-                          f"(model {[a for _, a in c['steps'] if a in LABEL_EVENT]}, real {o.get('visible_events')}): "
-                          f"Threads.tla no longer decomposes the operation as the code does")
+        name = c["mix"][0][0]
+        if not o["clean"] or any(r[0] == "exc" for rs in o["results"] for r in rs):
+            continue                      # judged below with the concurrent schedules (deadlock / exception when run alone)
+        if o["n_mismatch"] or o["skipped"] or o["unconsumed"]:
+            rep.spec_drift(f"operation {name} run alone does not perform the visible events of the model "
+                           f"(model {[a for _, a in c['steps'] if a in LABEL_EVENT]}, real {o.get('visible_events')})")
+            continue
+        if o["elided"] or o["extra"]:
+            rep.spec_drift(f"operation {name} run alone locks differently from the model: {o['elided']} lock operations of the "
+                           f"model are not performed, {o['extra']} are performed that the model lacks")
         if canon_outcome(o["proj"], o["registry"]) != canon_outcome(mproj, c["model_reg"]):
-            rep.machinery(f"operation {c['mix'][0][0]} run alone: real outcome {o['proj']} differs from the model's {mproj}")
+            rep.machinery(f"operation {name} run alone: real outcome {o['proj']} differs from the model's {mproj}")
+        n_conform += 1
+    if n_conform < len(OPS) // 2:
+        rep.machinery(f"only {n_conform} of {len(OPS)} operations, run alone, perform the visible events Threads.tla gives them: "
+                      f"the model no longer decomposes the operations as the code does")
+    rep.add("operations_conforming_when_run_alone", n_conform)
     mark("single-operation conformance")
     b2cases = []
     for label, warm, fut in sims:
